@@ -146,6 +146,40 @@ Section Sat.
     end.
   Definition ident_unsaturated (b : list node) : list (nat * nat) :=
     if fl_classical L then ident_from b 0 b else [].
+
+  (* Would the branch close if identity were fully applied?  The positive predications (world, predicate, arguments)
+     are closed, for a bounded number of rounds, under the mirror image of identities and one-occurrence replacement
+     at the same world; a conflict is a negated predication whose atom is derived, or a derived / stated ~ x = x.
+     Used only to decide whether a refusal of the model builder is explained by the identity rule's known
+     incompleteness (no theorem depends on it). *)
+  Fixpoint terms_eqb (a b : list term) : bool :=
+    match a, b with
+    | [], [] => true
+    | x :: r, y :: r' => term_eqb x y && terms_eqb r r'
+    | _, _ => false
+    end.
+  Definition fact := (nat * nat * list term)%type.
+  Definition fact_eqb (f g : fact) : bool :=
+    let '(w, p, a) := f in let '(w', p', a') := g in Nat.eqb w w' && Nat.eqb p p' && terms_eqb a a'.
+  Definition add_fact (fs : list fact) (f : fact) : list fact := if existsb (fact_eqb f) fs then fs else fs ++ [f].
+  Definition pos_facts (b : list node) : list fact :=
+    flat_map (fun n => match n with NS (Pred p args) true w => [(w, p, args)] | _ => [] end) b.
+  Definition ident_round (fs : list fact) : list fact :=
+    let ids := flat_map (fun f => match f with (w, 0, [ta; tb]) => [(w, ta, tb)] | _ => [] end) fs in
+    fold_left add_fact
+      (flat_map (fun i => let '(w, ta, tb) := i in
+                          (w, 0, [tb; ta]) ::
+                          flat_map (fun f => let '(w', p, args) := f in
+                                             if Nat.eqb w w' then map (fun a' => (w, p, a')) (repl_one ta tb args ++ repl_one tb ta args)
+                                             else []) fs) ids) fs.
+  Fixpoint ident_close (fuel : nat) (fs : list fact) : list fact :=
+    match fuel with 0 => fs | S k => ident_close k (ident_round fs) end.
+  Definition ident_conflict (b : list node) : bool :=
+    fl_classical L &&
+    let fs := ident_close 4 (pos_facts b) in
+    existsb (fun n => match n with
+                      | NS (Un Negation (Pred p args)) true w => existsb (fact_eqb (w, p, args)) fs || self_ident p args
+                      | _ => false end) b.
 End Sat.
 
 (* ---- certifying a reported countermodel: the model as data ---- *)
